@@ -209,6 +209,51 @@ class Tables:
         return sp
 
 
+    def word_containing(self, h, e):
+        """shortest child word valid for element h (strict reading) that contains e, or None"""
+        rn = self.known[h]
+        usable = self.usable(rn)
+        if e not in usable:
+            return None
+        spec, alpha, mixed, dfa = self.lang(rn)
+        start = (dfa.start, False)
+        prev = {start: None}
+        queue = [start]
+        while queue:
+            nxt = []
+            for (s_, seen) in queue:
+                if seen and s_ in dfa.acc:
+                    w = []
+                    cur = (s_, seen)
+                    while prev[cur] is not None:
+                        cur, a = prev[cur]
+                        w.append(a)
+                    w.reverse()
+                    if lang.accepts(spec, tuple(w), True, mixed):
+                        return w
+                for a in usable:
+                    t = (dfa.trans[(s_, a)], seen or a == e)
+                    if t[0] in self.d2a(rn) and t not in prev:
+                        prev[t] = ((s_, seen), a)
+                        nxt.append(t)
+            queue = nxt
+        return None
+
+    def pair_spec(self, h, e):
+        """(spec of a minimal valid tree rooted at h that has an e child, index of that child) or None"""
+        cache = self.__dict__.setdefault("_pairs", {})
+        if (h, e) not in cache:
+            word = None
+            if self.cost.get(h, INF) < INF and h != "metadata" and self.cost.get(e, INF) < INF:
+                word = self.word_containing(h, e)
+            if word is None or len(word) > 12:
+                cache[(h, e)] = None
+            else:
+                sp = self.min_spec(h)
+                sp["k"] = [self.min_spec(a) for a in word]
+                cache[(h, e)] = (sp, word.index(e))
+        return cache[(h, e)]
+
     def host_spec(self, e):
         """(spec of a minimal valid tree in which element e is a child of the root, index of that child), or None when
         no rule permits e as a child (cached).  The tree serves to validate a test node of that element as an INNER node
@@ -218,49 +263,13 @@ class Tables:
             return cache[e]
         best = None
         for h in sorted(self.known):
-            rn = self.known[h]
-            if self.cost.get(h, INF) == INF or h in ("metadata",):
+            ps = self.pair_spec(h, e)
+            if ps is None:
                 continue
-            usable = self.usable(rn)
-            if e not in usable:
-                continue
-            spec, alpha, mixed, dfa = self.lang(rn)
-            # shortest accepted word that contains e: breadth-first over (state, seen)
-            start = (dfa.start, False)
-            prev = {start: None}
-            queue = [start]
-            goal = None
-            while queue and goal is None:
-                nxt = []
-                for (s_, seen) in queue:
-                    if seen and s_ in dfa.acc:
-                        w = []
-                        cur = (s_, seen)
-                        while prev[cur] is not None:
-                            cur, a = prev[cur]
-                            w.append(a)
-                        w.reverse()
-                        if lang.accepts(spec, tuple(w), True, mixed):
-                            goal = w
-                            break
-                    for a in usable:
-                        t = (dfa.trans[(s_, a)], seen or a == e)
-                        if t[0] in self.d2a(rn) and t not in prev:
-                            prev[t] = ((s_, seen), a)
-                            nxt.append(t)
-                queue = nxt
-            if goal is None or len(goal) > 12:
-                continue
-            cost = sum(self.cost.get(a, 1) for a in goal)
+            cost = spec_size(ps[0])
             if best is None or cost < best[0]:
-                best = (cost, h, goal)
-        if best is None:
-            cache[e] = None
-            return None
-        _, h, word = best
-        sp = self.min_spec(h)
-        sp["k"] = [self.min_spec(a) for a in word]
-        cache[e] = (sp, word.index(e))
+                best = (cost, ps)
+        cache[e] = best[1] if best else None
         return cache[e]
 
 
